@@ -50,6 +50,16 @@ type State struct {
 	lobj    map[ssa.Value]string                // non-escaping local struct variables kept as value terms
 	callHeaps map[string]map[string]string      // "callee#k" -> heaps right after that call returned
 	closures  map[string]*ClosureInfo           // Fn term -> function and captured values
+	mats      []*Mat                            // interior pointers passed to a call through a temporary cell (copy-in/copy-out)
+}
+
+// Mat: the address of a field (or of a value-kept local) that is passed to a call. The pointee is copied into a fresh
+// cell whose reference stands for the pointer during the call; when the call returns the cell is copied back.
+type Mat struct {
+	V    ssa.Value // the FieldAddr/IndexAddr/Alloc value
+	Tmp  string
+	P    *Ptr
+	Heap string
 }
 
 // ClosureInfo is a function value created by MakeClosure on this path.
@@ -132,6 +142,7 @@ func (s *State) clone() *State {
 		c := *v
 		n.larr[k] = &c
 	}
+	n.mats = append([]*Mat{}, s.mats...)
 	return n
 }
 
@@ -401,10 +412,97 @@ func (e *Exec) val(st *State, v ssa.Value) string {
 	case *ssa.Function:
 		return "fn_" + sanitize(c.String())
 	}
-	if p, ok := st.ptrs[v]; ok && !p.Elem && len(p.Path) == 0 {
+	if p, ok := st.ptrs[v]; ok && !p.Elem && len(p.Path) == 0 && p.LObj == nil && p.Local == nil {
 		return p.Ref
 	}
+	if p, ok := st.ptrs[v]; ok && onlyPassedToCalls(v) {
+		return e.materialize(st, v, p)
+	}
 	panic(fmt.Sprintf("no term for %s = %v (%T)", v.Name(), v, v))
+}
+
+// onlyPassedToCalls: every use of the address is a field access, a load, a store through it, an argument of a call, or
+// a conversion to an interface value that is itself only an argument of calls. Such an address cannot be retained by
+// this function; that callees do not retain it is an assumption of the copy-in/copy-out treatment.
+func onlyPassedToCalls(v ssa.Value) bool {
+	if v.Referrers() == nil {
+		return false
+	}
+	for _, r := range *v.Referrers() {
+		switch u := r.(type) {
+		case *ssa.Call:
+			if u.Call.Value == v {
+				return false
+			}
+		case *ssa.MakeInterface:
+			for _, r2 := range *u.Referrers() {
+				if c, ok := r2.(*ssa.Call); !ok || c.Call.Value == ssa.Value(u) {
+					if _, dbg := r2.(*ssa.DebugRef); !dbg {
+						return false
+					}
+				}
+			}
+		case *ssa.FieldAddr, *ssa.DebugRef:
+		case *ssa.UnOp:
+			if u.Op != token.MUL {
+				return false
+			}
+		case *ssa.Store:
+			if u.Addr != v {
+				return false
+			}
+		default:
+			return false
+		}
+	}
+	return true
+}
+
+func (e *Exec) materialize(st *State, v ssa.Value, p *Ptr) string {
+	el := v.Type().Underlying().(*types.Pointer).Elem()
+	if _, isArr := el.Underlying().(*types.Array); isArr {
+		panic("address of an array inside an object passed to a call: out of subset")
+	}
+	hn := e.sorts.HeapObj(e.sorts.SortOf(el))
+	r := e.alloc(st)
+	st.assume = append(st.assume, fmt.Sprintf("(= (select %s %s) %s)", e.heapSym(st, hn), r, e.load(st, p)))
+	st.mats = append(st.mats, &Mat{V: v, Tmp: r, P: p, Heap: hn})
+	st.vals[v] = r
+	e.applied["interior pointer passed to a call by copy-in/copy-out (the callee is assumed not to retain it)"]++
+	return r
+}
+
+// writeBack: after a call, the temporary cells of the interior pointers among its arguments are copied back.
+func (e *Exec) writeBack(st *State, c *ssa.Call) {
+	if len(st.mats) == 0 {
+		return
+	}
+	used := func(m *Mat) []ssa.Value {
+		var out []ssa.Value
+		for _, a := range c.Call.Args {
+			if a == m.V {
+				out = append(out, a)
+			}
+			if mi, ok := a.(*ssa.MakeInterface); ok && mi.X == m.V {
+				out = append(out, a, m.V)
+			}
+		}
+		return out
+	}
+	var keep []*Mat
+	for _, m := range st.mats {
+		u := used(m)
+		if len(u) == 0 {
+			keep = append(keep, m)
+			continue
+		}
+		e.store(st, m.P, fmt.Sprintf("(select %s %s)", e.heapSym(st, m.Heap), m.Tmp))
+		for _, x := range u {
+			delete(st.vals, x)
+		}
+		delete(st.vals, m.V)
+	}
+	st.mats = keep
 }
 
 func (e *Exec) constTerm(c *ssa.Const) string {
@@ -1562,7 +1660,7 @@ func (e *Exec) instr(st *State, b *ssa.BasicBlock, ins ssa.Instruction) (stop bo
 			}
 		}
 		bx := e.fresh("boxed", "Any")
-		tag := "tag_" + sanitize(x.X.Type().String())
+		tag := "tag_" + sanitize(types.Unalias(x.X.Type()).String())
 		e.declOnce(fmt.Sprintf("(declare-const %s Int)", tag))
 		st.assume = append(st.assume, fmt.Sprintf("(and (= (typeof %s) %s) (not (= %s nilAny)))", bx, tag, bx))
 		st.boxed[bx] = &BoxInfo{Typ: x.X.Type(), Term: e.val(st, x.X)}
@@ -1609,7 +1707,7 @@ func (e *Exec) instr(st *State, b *ssa.BasicBlock, ins ssa.Instruction) (stop bo
 			}
 			return false
 		}
-		tag := "tag_" + sanitize(x.AssertedType.String())
+		tag := "tag_" + sanitize(types.Unalias(x.AssertedType).String())
 		e.declOnce(fmt.Sprintf("(declare-const %s Int)", tag))
 		okT := fmt.Sprintf("(= (typeof %s) %s)", v, tag)
 		valT := fmt.Sprintf("(unboxRef %s)", v)
@@ -1801,6 +1899,12 @@ func (e *Exec) instr(st *State, b *ssa.BasicBlock, ins ssa.Instruction) (stop bo
 }
 
 func (e *Exec) call(st *State, c *ssa.Call) string {
+	r := e.call0(st, c)
+	e.writeBack(st, c)
+	return r
+}
+
+func (e *Exec) call0(st *State, c *ssa.Call) string {
 	var args []string
 	for _, a := range c.Call.Args {
 		args = append(args, e.val(st, a))
@@ -2458,6 +2562,12 @@ func (e *Exec) applyContract(st *State, call *ssa.Call, fc *FuncContract, args [
 		gt := e.fresh("ghost_"+g.Name, gv.Sort)
 		gv.T = gt
 		c.vars[g.Name] = gv
+		// whether the ghost result exists depends on the path the callee took: unknown here, constrained only by
+		// what the callee's clauses say about bound(NAME)
+		if c.boundTerm == nil {
+			c.boundTerm = map[string]string{}
+		}
+		c.boundTerm[g.Name] = e.fresh("ghostbound_"+g.Name, "Bool")
 		st.snaps[fmt.Sprintf("ghost:%s#%d.%s", fc.Name, cnt, g.Name)] = gv.Sort + "\x01" + gt
 	}
 	for _, cl := range append(append([]Clause{}, fc.Ensures...), fc.Abstracts...) {
